@@ -635,12 +635,12 @@ func (env *Env) evalCall(n *ECall) TV {
 		}
 		for k, t := range env.state.heap {
 			if strings.HasPrefix(k, "last|"+sx.V+"|") {
-				return TV{T: t}
+				return TV{T: t, Typ: e.lastTyp[sx.V]}
 			}
 		}
 		for k, t := range e.heap0 {
 			if strings.HasPrefix(k, "last|"+sx.V+"|") {
-				return TV{T: t}
+				return TV{T: t, Typ: e.lastTyp[sx.V]}
 			}
 		}
 		// no call yet on this path: the value is arbitrary (the callee is called somewhere in this function)
